@@ -85,6 +85,11 @@ impl FromStr for ZcashAddress {
                 }
             };
 
+            // The 8-to-5 bit regrouping must be canonical: at most 4 bits of padding, all zero.
+            if parsed.validate_segwit_padding().is_err() {
+                return Err(ParseError::InvalidEncoding);
+            }
+
             let data = parsed.byte_iter().collect::<Vec<_>>();
 
             return data
@@ -106,6 +111,11 @@ impl FromStr for ZcashAddress {
                     return Err(ParseError::NotZcash);
                 }
             };
+
+            // The 8-to-5 bit regrouping must be canonical: at most 4 bits of padding, all zero.
+            if parsed.validate_segwit_padding().is_err() {
+                return Err(ParseError::InvalidEncoding);
+            }
 
             let data = parsed.byte_iter().collect::<Vec<_>>();
 
